@@ -76,7 +76,9 @@ def _work(args):
             law("then", lambda: all(F(d[:j] >> d[j:]) == F(d[:j]) >> F(d[j:]) for j in range(n + 1)))
             law("tensor", lambda: F(d @ d) == img @ img and F(d @ rigid.Id(x)) == img @ F(rigid.Id(x)))
             law("id", lambda: F(rigid.Id(d.cod)) == rigid.Id(F(d.cod)) and F(rigid.Id(d.dom)) == rigid.Id(F(d.dom)))
-            law("sum", lambda: F(d + d) == img + img and F(rigid.Diagram.sum([], d.dom, d.cod)) == rigid.Diagram.sum([], img.dom, img.cod))
+            law("sum", lambda: F(d + d) == img + img and F(rigid.Diagram.sum([], d.dom, d.cod)) == rigid.Diagram.sum([], img.dom, img.cod)
+                and (lambda one: hasattr(one, "terms") and len(one.terms) == 1 and one.terms[0] == img
+                     and one == rigid.Diagram.sum([img]))(F(rigid.Diagram.sum([d]))))     # a one-term sum stays a sum
             law("adjoint_l", lambda: F(d.cod.l) == F(d.cod).l and F(d.dom.l) == F(d.dom).l)
             law("adjoint_r", lambda: F(d.cod.r) == F(d.cod).r and F(d.dom.r) == F(d.dom).r)
             cups = [b for b in d.boxes if isinstance(b, rigid.Cup)]
